@@ -74,12 +74,13 @@ def eval_case(case, want, dtypes=("float64", "float32"), variant=0):
             continue
         if y.dtype != dt or lad.dtype != dt:
             add("dtype_not_preserved", "forward returns dtypes %s / %s for %s inputs" % (y.dtype, lad.dtype, dtn), **tag)
-        if "C17" in want and len(ins) > 1:
+        if (want & {"C17", "C09"}) and len(ins) > 1:
             # the same in-domain values as a non-contiguous tensor (a column of a wider array): same outcome
             oc_nc, y_nc, _ = rs.call_transposed(xs)
             if oc_nc != "Value":
                 add("in_domain_rejected" if oc_nc == "InputOutsideDomain" else "in_domain_crash", "forward on the in-domain lattice inputs passed as a non-contiguous tensor: %s" % oc_nc, **tag)
             elif not torch.allclose(y_nc, y, rtol=1e-5, atol=1e-6):   # (kernels may differ by an ulp between layouts)
+                add("box_point_not_mapped", "the box points passed as a non-contiguous tensor are mapped to other values than in their contiguous copy (max diff %.3g): the map is a function of the values" % float((y_nc - y).abs().max()), **tag)
                 add("in_domain_crash", "forward on a non-contiguous tensor returns other values than on its contiguous copy (max diff %.3g)" % float((y_nc - y).abs().max()), **tag)
         if not bool(torch.isfinite(y).all() and torch.isfinite(lad).all()):
             add("in_domain_nonfinite" if dtn == "float64" else "f32_nonfinite", "forward returns non-finite values on in-domain inputs", **tag)
